@@ -12,8 +12,7 @@ The encoder model `Wire.Encode.packets` is byte-exact against `DNSOutgoing.packe
 (correspondence harness).  The statement for the library's own decoder follows from C02
 (`C02_agrees_strict`).
 
-`…_partial`: NSEC records are excluded from `WFMsg` here (their type-bitmap round trip is not yet
-proved in Lean; the harness checks them differentially).  -/
+All seven record kinds (A/AAAA, PTR/CNAME, TXT, SRV, HINFO, NSEC) are inside `WFMsg`. -/
 namespace Zc
 open Zc.Wire Zc.Wire.Encode
 
@@ -25,10 +24,10 @@ def onWireAdditionals (m : Msg) : List WRecord := m.additionals.map (fun r => r.
 
 /-- **Round trip.**  For every message inside the quantifier (`WFMsg`: names of 1..128 labels of
 1..63 bytes and ≤ 253 characters, 16-bit types, 15-bit classes, TTL < 2³², character-strings ≤ 255,
-rdata matching the record type; `FitAll`: every entry alone fits 8966 bytes), every datagram the
+rdata matching the record type, NSEC types non-empty, increasing, ≤ 255; `FitAll`: every entry alone fits 8966 bytes), every datagram the
 builder emits is accepted by the strict decoder, and concatenating what it decodes gives back each
 section exactly: same entries, same order, nothing lost, duplicated or invented. -/
-theorem C01_roundtrip_strict_partial (m : Msg) (hwf : WFMsg m) (hfit : FitAll m) (pks : List Bytes)
+theorem C01_roundtrip_strict (m : Msg) (hwf : WFMsg m) (hfit : FitAll m) (pks : List Bytes)
     (h : packets m = .ok pks) :
     ∃ msgs : List WMsg, pks.map Strict.decode = msgs.map some ∧
       msgs.flatMap (·.questions) = onWireQuestions m ∧
@@ -84,11 +83,12 @@ def exMsg : Msg :=
   { flags := 0x8400, id := 0, multicast := true, questions := [⟨exType, 12, 1, false⟩],
     answers := [(⟨exType, 12, 1, false, 4500, 0, .ptr exInst⟩, 0)],
     authorities := [],
-    additionals := [⟨exInst, 33, 1, true, 120, 0, .srv 0 0 80 exHost⟩, ⟨exHost, 1, 1, true, 120, 0, .addr [10, 0, 0, 1]⟩] }
+    additionals := [⟨exInst, 33, 1, true, 120, 0, .srv 0 0 80 exHost⟩, ⟨exHost, 1, 1, true, 120, 0, .addr [10, 0, 0, 1]⟩,
+                    ⟨exHost, 47, 1, true, 120, 0, .nsec exHost [1, 28, 47]⟩] }
 
 example : WFMsg exMsg := ⟨by decide, by decide, by decide, by decide⟩
 example : FitAll exMsg := ⟨by decide, by decide, by decide, by decide⟩
-/-- the datagram really uses compression pointers: 80 bytes, against 107 uncompressed -/
-example : (packets exMsg).toOption.map (fun pks => pks.map List.length) = some [80] := by decide
+/-- the datagram really uses compression pointers: pointers for every repeated suffix -/
+example : (packets exMsg).toOption.map (fun pks => pks.map List.length) = some [102] := by decide
 
 end Zc
